@@ -489,6 +489,7 @@ class ThreadPoolServer(Server):
     def _accept_method(self, sock):
         '''Implementation of the accept method : only pushes the work to the internal queue.
         In case the queue is full, raises an AsynResultTimeout error'''
+        accepted = sock
         try:
             addrinfo = None
             # authenticate and build connection object
@@ -504,6 +505,7 @@ class ThreadPoolServer(Server):
             err_msg = "Failed to serve client for {}, caught exception".format(addrinfo)
             self.logger.exception(err_msg)
             sock.close()
+            self.clients.discard(accepted)
 
 
 class ForkingServer(Server):
